@@ -140,6 +140,34 @@ def oracle(run: runner.Run, oc: Outcome) -> None:
                        f"{c.new} that is not the final one {ess}, and was not run again, yet the final state is "
                        f"recorded as handled", uid=uid, hid=hid)
 
+    # f. after a restart, the resume handlers selected for an object that was there at the start complete as well
+    snaps = common.snapshots(run)
+    incs = run.ops.get(opid, [])
+    for oper in incs:
+        if oper.incarnation != op.incarnation or len(incs) < 2:
+            continue   # judged for the last process only: it is the one that lived through the quiet period
+        for (o_, uid), lst in steps.items():
+            mine = [s_ for s_ in lst if s_.actor == oper.actor]
+            if not mine or mine[0].etype is not None or uid not in finals:
+                continue
+            first_view = snaps.get((uid, mine[0].rv))
+            if first_view is None:
+                continue
+            meta0 = first_view.get('metadata') or {}
+            if st.last_handled(first_view) is None or meta0.get('deletionTimestamp') is not None or st.records(first_view):
+                continue
+            if finals[uid]['metadata'].get('deletionTimestamp') is not None:
+                continue
+            for hid, h in hspecs.items():
+                if h['kind'] != 'resume' or h.get('subs'):
+                    continue
+                calls_r = [c for s_ in mine for c in s_.calls if c.hid == hid]
+                if not any(changes.final_outcome(c, h) for c in calls_r):
+                    oc.add('C03/handler-never-completed', 'resume-after-restart',
+                           f"{finals[uid]['metadata']['name']} was there (handled before, nothing pending) when process "
+                           f"{oper.actor} started at t={oper.t_start}, but resume handler {hid} never completed there "
+                           f"(calls: {[(c.n, c.outcome) for c in calls_r]}) although the run settled", uid=uid, hid=hid)
+
     # d'. objects whose deletion was requested and that nobody else holds are gone
     for uid, t_req in deletion_requested.items():
         if uid in finals:
